@@ -12,7 +12,7 @@ HDRS = $(wildcard sim/*.hpp) $(shell find $(REPO)/include -name '*.hpp')
 ASAN_OBJS = $(addprefix $(B)/asan/,$(addsuffix .o,$(GENERIC) $(addprefix pol_,$(POLS))))
 
 TSAN_FLAGS = $(COMMON) -O1 -gline-tables-only -fno-omit-frame-pointer -fsanitize=thread -DYS_NO_NEW_REPLACEMENT
-TSAN_POLS = rel dbg ind map cind sdbg
+TSAN_POLS = rel dbg ind map cind sdbg thr vec
 TSAN_GENERIC = common plan exec gen sched
 TSAN_OBJS = $(addprefix $(B)/tsan/,$(addsuffix .o,$(TSAN_GENERIC) $(addprefix pol_,$(TSAN_POLS))))
 
